@@ -35,6 +35,28 @@ impl<'a> DeferredWriter<'a> {
         }
     }
 
+    /// Creates a [`DeferredWriter`] with a given buffer capacity (verification builds only).
+    #[cfg(flussab_verif)]
+    pub fn verif_with_capacity(write: impl Write + 'a, capacity: usize) -> Self {
+        DeferredWriter {
+            write: Box::new(write),
+            buf: Vec::with_capacity(capacity),
+            io_error: None,
+            panicked: false,
+        }
+    }
+
+    /// Returns the internal fields of this writer (verification builds only).
+    #[cfg(flussab_verif)]
+    pub fn verif_state(&self) -> crate::verif::WriterState {
+        crate::verif::WriterState {
+            len: self.buf.len(),
+            cap: self.buf.capacity(),
+            io_error: self.io_error.is_some(),
+            panicked: self.panicked,
+        }
+    }
+
     /// Flush the buffered data to the underlying [`Write`] instance, deferring IO errors.
     pub fn flush_defer_err(&mut self) {
         // Silently discard data if we errored before but haven't reported it yet
